@@ -481,7 +481,38 @@ func (c *Ctx) TPL(rule string) []report.Obligation {
 			pos := c.P.Pos(f.Pos())
 			for _, r := range returnsOf(f) {
 				bv, isC := constBool(retValue(r, 1))
-				if !isC || bv || !isNilOrConst(retValue(r, 2)) {
+				if !isC || bv {
+					continue
+				}
+				if ev := retValue(r, 2); !isNilOrConst(ev) {
+					// `if !found || err != nil { return "", false, err }`: edge by edge, either the error is known
+					// to be set (an error return) or the operator was not found
+					plain := 0
+					for _, pred := range r.Block().Preds {
+						facts := prog.EdgeFacts(pred, r.Block())
+						isErr, absent := false, false
+						for _, fct := range facts {
+							if bo, ok := fct.Cond.(*ssa.BinOp); ok && (bo.Op == token.NEQ) == fct.Val && (bo.Op == token.NEQ || bo.Op == token.EQL) &&
+								(bo.X == ev && prog.IsNilConst(bo.Y) || bo.Y == ev && prog.IsNilConst(bo.X)) {
+								isErr = true
+							}
+							if notFound(fct.Cond, fct.Val) {
+								absent = true
+							}
+						}
+						switch {
+						case isErr:
+						case absent:
+							plain++
+						default:
+							plain++
+							good = false
+							pos = c.P.InstrPos(r)
+						}
+					}
+					if plain > 0 {
+						n++
+					}
 					continue
 				}
 				n++
@@ -508,46 +539,52 @@ func (c *Ctx) TPL(rule string) []report.Obligation {
 			out = append(out, anchorViolation(rule+"-2", id))
 			continue
 		}
-		// the call that splits the operand at the operator: a helper (string, string) -> (string, string, ...) of the
-		// package, or strings.Cut
-		part := callSites(f, func(com *ssa.CallCommon) bool {
-			cal := com.StaticCallee()
-			if cal == nil {
-				return false
-			}
-			if calleeName(cal) == "strings.Cut" {
-				return true
-			}
-			sig := cal.Signature
-			return c.P.InModule(cal) && strings.HasPrefix(c.P.FuncID(cal), "template.") && sig.Params().Len() == 2 && sig.Results().Len() >= 2 &&
-				isStringType(sig.Params().At(0).Type()) && isStringType(sig.Params().At(1).Type()) &&
-				isStringType(sig.Results().At(0).Type()) && isStringType(sig.Results().At(1).Type())
-		})
-		sub := c.callsTo(f, "template.Substitute")
-		good := false
-		if len(part) == 1 && len(sub) >= 1 {
-			for _, s := range sub {
-				ex, isEx := s.Common().Args[0].(*ssa.Extract)
-				if !isEx || ex.Tuple != part[0].(ssa.Value) || ex.Index != 1 {
-					continue
-				}
-				// the interpolated text is what leaves the function (result or error field)
-				for _, r := range *s.(ssa.Value).Referrers() {
-					e2, ok := r.(*ssa.Extract)
-					if !ok || e2.Index != 0 {
-						continue
+		// the split at the operator and the interpolation of what follows it: in the function itself, or in a
+		// helper of the package that returns the interpolated text (then result k of the helper is what is used)
+		leaves := func(v ssa.Value) bool {
+			for _, use := range *v.Referrers() {
+				switch u := use.(type) {
+				case *ssa.Return:
+					return true
+				case *ssa.Store:
+					if fa, ok := u.Addr.(*ssa.FieldAddr); ok && fieldName(fa) == "Reason" {
+						return true
 					}
-					for _, use := range *e2.Referrers() {
-						switch u := use.(type) {
-						case *ssa.Return:
-							good = true
-						case *ssa.Store:
-							if fa, ok := u.Addr.(*ssa.FieldAddr); ok && fieldName(fa) == "Reason" {
-								good = true
+				case *ssa.Phi:
+					return true
+				}
+			}
+			return false
+		}
+		good := false
+		if res := c.interpolatedHalf(f); len(res) > 0 {
+			for _, v := range res {
+				if leaves(v) {
+					good = true
+				}
+			}
+		} else {
+			for _, cs := range callSites(f, func(com *ssa.CallCommon) bool {
+				cal := com.StaticCallee()
+				return cal != nil && c.P.InModule(cal) && strings.HasPrefix(c.P.FuncID(cal), "template.") && cal != f
+			}) {
+				h := cs.Common().StaticCallee()
+				// which results of the helper carry the interpolated text on every return that has one
+				idx := map[int]bool{}
+				for _, v := range c.interpolatedHalf(h) {
+					for _, use := range *v.Referrers() {
+						if r, ok := use.(*ssa.Return); ok {
+							for i, rv := range r.Results {
+								if rv == v {
+									idx[i] = true
+								}
 							}
-						case *ssa.Phi:
-							good = true
 						}
+					}
+				}
+				for _, r := range *cs.(ssa.Value).Referrers() {
+					if ex, ok := r.(*ssa.Extract); ok && idx[ex.Index] && leaves(ex) {
+						good = true
 					}
 				}
 			}
@@ -698,3 +735,38 @@ func (c *Ctx) TPL(rule string) []report.Obligation {
 
 var _ = constant.MakeBool
 var _ = report.Info
+
+// interpolatedHalf: the values in f that are Substitute(second half of the split of the operand at the operator).
+// The split is a helper (string, string) -> (string, string, ...) of package template, or strings.Cut.
+func (c *Ctx) interpolatedHalf(f *ssa.Function) []ssa.Value {
+	part := callSites(f, func(com *ssa.CallCommon) bool {
+		cal := com.StaticCallee()
+		if cal == nil {
+			return false
+		}
+		if calleeName(cal) == "strings.Cut" {
+			return true
+		}
+		sig := cal.Signature
+		return c.P.InModule(cal) && strings.HasPrefix(c.P.FuncID(cal), "template.") && sig.Params().Len() == 2 && sig.Results().Len() >= 2 &&
+			isStringType(sig.Params().At(0).Type()) && isStringType(sig.Params().At(1).Type()) &&
+			isStringType(sig.Results().At(0).Type()) && isStringType(sig.Results().At(1).Type())
+	})
+	sub := c.callsTo(f, "template.Substitute")
+	if len(part) != 1 || len(sub) == 0 {
+		return nil
+	}
+	var out []ssa.Value
+	for _, s := range sub {
+		ex, isEx := s.Common().Args[0].(*ssa.Extract)
+		if !isEx || ex.Tuple != part[0].(ssa.Value) || ex.Index != 1 {
+			continue
+		}
+		for _, r := range *s.(ssa.Value).Referrers() {
+			if e2, ok := r.(*ssa.Extract); ok && e2.Index == 0 {
+				out = append(out, e2)
+			}
+		}
+	}
+	return out
+}
